@@ -338,6 +338,7 @@ def write_evidence(spec, tier, base_seed, results, wall, n_viol, det_pairs, know
     faults, probes, counters = {}, {}, {}
     sigs = set()
     metrics_max = {}
+    metrics_at = {}
     sim_s = 0.0
     events = 0
     for r in results:
@@ -351,10 +352,12 @@ def write_evidence(spec, tier, base_seed, results, wall, n_viol, det_pairs, know
         _merge(probes, r.get("probes", {}))
         _merge(counters, r.get("counters", {}))
         for mk, mv in (r.get("metrics") or {}).items():
+            if isinstance(mv, list) and mv and all(isinstance(z, (int, float)) for z in mv):
+                mv = max(mv)
             if isinstance(mv, (int, float)) and mv == mv:
-                metrics_max[mk] = max(metrics_max.get(mk, mv), mv)
-            elif isinstance(mv, list) and mv and all(isinstance(z, (int, float)) for z in mv):
-                metrics_max[mk] = max(metrics_max.get(mk, max(mv)), max(mv))
+                if mk not in metrics_max or mv > metrics_max[mk]:
+                    metrics_max[mk] = mv
+                    metrics_at[mk] = "%s seed %d" % (r["family"], r["seed"])
         sim_s += r.get("sim_s", 0.0)
         events += r.get("events", 0)
         if r.get("nontrivial") and r.get("sig"):
@@ -384,6 +387,7 @@ def write_evidence(spec, tier, base_seed, results, wall, n_viol, det_pairs, know
             "probes": probes,
             "counters": counters,
             "worst_observed_metrics": metrics_max,
+            "worst_observed_at": metrics_at,
             "real_components": spec.get("real", []),
             "stub_components": spec.get("stub", []),
             "determinism_pairs_checked": det_pairs,
